@@ -184,8 +184,36 @@ class FunctionValue:
 
     def __call__(self, *args: Any, **kwargs: Any) -> Any:
         fn = self.fn
+        decos = {dotted(d) if not isinstance(d, ast.Call) else dotted(d.func) for d in fn.decorator_list}
+        if decos and not self.__dict__.get("_memo_bypass"):
+            known = {"staticmethod", "classmethod", "property", "overload", "typing.overload", "abstractmethod", "abc.abstractmethod",
+                     "cached_property", "functools.cached_property"}
+            memo = {"functools.lru_cache", "lru_cache", "functools.cache", "cache"}
+            for d in decos:
+                if d is None or (d not in known and d not in memo and not (d or "").endswith(".setter")):
+                    raise Undecided(f"decorator {d} on {fn.name}")
+            if decos & memo:
+                # functools.lru_cache: one result object per distinct argument tuple, handed out again on every later call
+                def hk(v: Any) -> Any:
+                    if isinstance(v, (list, dict, set)):
+                        raise Raised(f"TypeError(\"unhashable type: '{type(v).__name__}'\")")
+                    if isinstance(v, tuple):
+                        return ("t",) + tuple(hk(x) for x in v)
+                    if isinstance(v, (int, float)):
+                        return ("n", v)  # 1, 1.0 and True are one key (typed=False)
+                    if isinstance(v, (str, type(None))):
+                        return (type(v).__name__, v)
+                    return ("id", id(v))
+                key = (tuple(hk(a) for a in args), tuple(sorted((k, hk(v)) for k, v in kwargs.items())))
+                table = self.genv.setdefault("__memo__", {}).setdefault(id(fn), {})
+                if key in table:
+                    return table[key][1]
+                inner = FunctionValue(fn, self.ev, self.genv, self.self_obj, self.owner)
+                inner._memo_bypass = True
+                r = inner(*args, **kwargs)
+                table[key] = (args, r)  # the arguments are kept alive with the entry, as the real cache does
+                return r
         env = dict(self.genv)
-        decos = {dotted(d) for d in fn.decorator_list}
         if self.self_obj is not None and "staticmethod" in decos:
             pass  # no receiver is passed
         elif self.self_obj is not None and "classmethod" in decos:
@@ -1194,7 +1222,10 @@ _ITER_BUILTINS = {"enumerate", "zip", "map", "sum", "all", "any", "reversed", "m
 
 _SAFE_METHODS = {
     "str": ("format", "join", "split", "strip", "startswith", "endswith", "lower", "upper", "isdigit", "index",
-            "find", "replace", "encode", "rstrip", "lstrip", "splitlines"),
+            "find", "replace", "encode", "rstrip", "lstrip", "splitlines", "isalpha", "isalnum", "islower", "isupper", "isspace",
+            "isdecimal", "isnumeric", "isascii", "isidentifier", "rfind", "rindex", "count", "partition", "rpartition", "rsplit", "zfill",
+            "rjust", "ljust", "center", "title", "capitalize", "swapcase", "casefold", "removeprefix", "removesuffix", "translate",
+            "expandtabs"),
     "list": ("append", "extend", "index", "count", "copy", "pop", "insert", "reverse", "sort", "remove"),
     "_Deque": ("append", "extend", "popleft", "appendleft", "pop"),
     "tuple": ("index", "count"),
